@@ -38,14 +38,26 @@ package network
 //@   invariant @loop 0: 0 <= $k && $k <= len(c.cache) && forall(i, 0, $k, c.cache[i].Height != height)
 //@   nopanic
 
+// representation invariant of the confirm cache: the map and every inner map exist
+//@ pred wfCC(c *ConfirmCache) = c != nil && c.cache != nil && forall(h, 0, 4294967296, has(c.cache, uint32(h)) ==> c.cache[uint32(h)] != nil)
+
 //@ func (*ConfirmCache).Clear
 //@   props C20 C15
-//@   requires c != nil && !held(c.lock)
+//@   requires wfCC(c) && !held(c.lock)
+//@   ensures wfCC(c)
+//@   invariant @loop 0: c.cache != nil && forall(k, 0, 4294967296, has(c.cache, uint32(k)) ==> c.cache[uint32(k)] != nil)
 //@   nopanic
 
 //@ func (*ConfirmCache).Push
 //@   props C20 C15
-//@   requires c != nil && c.cache != nil && data != nil && !held(c.lock)
-//@   requires forall(h, 0, 4294967296, has(c.cache, uint32(h)) ==> c.cache[uint32(h)] != nil)
+//@   requires wfCC(c) && data != nil && !held(c.lock)
+//@   ensures wfCC(c)
 //@   ensures len(old(c.cache)) < 10240 ==> has(c.cache, data.Height) && has(c.cache[data.Height], data.Hash)
+//@   nopanic
+
+//@ func (*ConfirmCache).Pop
+//@   props C20 C15
+//@   requires wfCC(c) && !held(c.lock)
+//@   ensures wfCC(c)
+//@   invariant @loop 0: 0 <= $k && $k <= len(c.cache[height][hash]) && wfCC(c)
 //@   nopanic
